@@ -520,6 +520,54 @@ void hx_gen(Rng &r, const std::string &tier)
         } catch (const std::exception &) {
         }
     }
+    // --- integers around the machine-word boundaries of the parser (strtol / LONG_MAX, 64-bit wrap, 10**18..10**20),
+    //     alone and as coefficient, exponent, base, rational numerator / denominator, function argument
+    {
+        std::vector<integer_class> bs;
+        integer_class two63 = integer_class(1) << 63, two64 = integer_class(1) << 64, ten18(1), ten19, ten20;
+        for (int i = 0; i < 18; i++)
+            ten18 *= 10;
+        ten19 = ten18 * 10;
+        ten20 = ten19 * 10;
+        for (const integer_class &b : {two63, two64, ten18, ten19, ten20, integer_class(two63 >> 32), integer_class(two63 >> 31)})
+            for (int d = -2; d <= 2; d++)
+                bs.push_back(b + d);
+        for (int i = 0; i < 12 * N; i++) { // random 18-, 19-, 20-digit integers
+            integer_class lo = i % 3 == 0 ? integer_class(ten18 / 10) : i % 3 == 1 ? ten18 : ten19;
+            integer_class v = lo + (integer_class((unsigned long)(r.next() >> 1)) * 9) % (lo * 9);
+            bs.push_back(v);
+        }
+        size_t k = 0;
+        for (const integer_class &b : bs) {
+            for (int sgn = 0; sgn < 2; sgn++) {
+                RCP<const Integer> n = integer(sgn ? integer_class(-b) : b);
+                put("str", n, "integer-boundary");
+                try {
+                    switch ((k++) % 6) {
+                        case 0:
+                            put("str", add(mul(n, x), y), "integer-boundary");
+                            break;
+                        case 1:
+                            put("str", pow(x, n), "integer-boundary");
+                            break;
+                        case 2:
+                            put("str", Rational::from_two_ints(*n, *integer(7)), "integer-boundary");
+                            put("str", mul(Rational::from_two_ints(*integer(3), *n), y), "integer-boundary");
+                            break;
+                        case 3:
+                            put("str", function_symbol("f", vec_basic{n, add(n, x)}), "integer-boundary");
+                            break;
+                        case 4:
+                            put("str", pow(n, div(x, integer(3))), "integer-boundary");
+                            break;
+                        default:
+                            put("str", add(n, mul(Complex::from_two_nums(*n, *integer(1)), z)), "integer-boundary");
+                    }
+                } catch (const std::exception &) {
+                }
+            }
+        }
+    }
     // doubles: every family of rand_double, positive and negative
     for (int i = 0; i < 150 * N; i++) {
         double d = rand_double(r);
